@@ -77,6 +77,13 @@ CHECKS = [
           "wrappers targets function-allocated or op-owned memory, never something that may be or view caller-owned memory (one reasoned exemption); Tensor.backward does not write its seed; the copy rule "
           "of Operation.backward provably yields an engine-owned array for the worst case it must handle; no backward_var returns an input's array itself; cached state is returned only by single-variable "
           "ops; the seed store fails (known finding D8)." + NOT_DECIDED + "np.shares_memory of concrete arrays; value checksums.", "note": NOTE},
+ {"property_id": "C02", "technique": "static: symbolic term evaluation (sympy) of closed-form forward/backward bodies and comparison with the derivative of the declared kernel; linearity-in-grad abstract domain; "
+                                       "index-specialised CFG exhaustiveness; definite-assignment of backward state",
+  "text": "Decides, for the 66 op/operand pairs whose forward and backward bodies are closed-form (all arithmetic, exp/log, trigonometric, hyperbolic ufuncs, maximum/minimum, arctan2, where, and the elementwise "
+          "activations): the term of backward_var|index=k equals g * d(forward term)/dx_k at exact sample points of the kernel's domain (49 additionally proved by simplification), and the documented conventions at "
+          "non-differentiable points (|x| at 0, arcsin/arccos at +-1, max/min ties) hold; for every backward_var: the result is homogeneous-linear in grad (abstract domain), a value is returned for every index < arity, "
+          "and every attribute it reads is definitely assigned by the forward pass / constructor. The term domain is symbolic constant propagation over loop-free bodies (no path search, no solver)." + NOT_DECIDED +
+          "VJPs of reductions, cumulative ops, matmul/einsum/norm, get/set-item, joins/tiling, conv/pool/batchnorm/GRU/losses (array-shaped index arithmetic - no closed term); option x shape interactions.", "note": NOTE},
 ]
 _BUILT = {c["property_id"] for c in CHECKS}
 NOT_APPLICABLE = [
